@@ -175,6 +175,8 @@ where
     // Maximum number of concurrent PUBLISH packets for sending
     // Current count of PUBLISH packets being sent
     publish_send_count: u16,
+    // Packet ids of the exchanges counted in publish_send_count
+    publish_send_counted: HashSet<PacketIdType>,
 
     // Set of received PUBLISH packets (for flow control)
     publish_recv: HashSet<PacketIdType>,
@@ -381,6 +383,7 @@ where
             publish_send_max: None,
             publish_recv_max: None,
             publish_send_count: 0,
+            publish_send_counted: HashSet::default(),
             publish_recv: HashSet::default(),
             maximum_packet_size_send: MQTT_PACKET_SIZE_NO_LIMIT,
             maximum_packet_size_recv: MQTT_PACKET_SIZE_NO_LIMIT,
@@ -1258,9 +1261,7 @@ where
             self.pid_pubrec.remove(&packet_id);
 
             // For V5.0, decrement publish send count if flow control is enabled
-            if self.publish_send_max.is_some() && self.publish_send_count > 0 {
-                self.publish_send_count -= 1;
-            }
+            self.uncount_publish_send(packet_id);
 
             // Release the packet ID if it's managed
             if self.pid_man.is_used_id(packet_id) {
@@ -1330,6 +1331,7 @@ where
         self.publish_send_max = None;
         self.publish_recv_max = None;
         self.publish_send_count = 0;
+        self.publish_send_counted.clear();
         self.topic_alias_send = None;
         self.topic_alias_recv = None;
         self.publish_recv.clear();
@@ -1354,26 +1356,36 @@ where
     /// Send all stored packets for retransmission
     fn send_stored(&mut self) -> Vec<GenericEvent<PacketIdType>> {
         let mut events = Vec::new();
-        let mut resent: u16 = 0;
+        let mut resent: Vec<PacketIdType> = Vec::new();
+        let mut dropped: Vec<PacketIdType> = Vec::new();
         self.store.for_each(|packet| {
             if packet.size() > self.maximum_packet_size_send as usize {
                 let packet_id = packet.packet_id();
                 self.pid_man.release_id(packet_id);
                 events.push(GenericEvent::NotifyPacketIdReleased(packet_id));
+                dropped.push(packet_id);
                 return false; // Remove from store
             }
             events.push(GenericEvent::RequestSendPacket {
                 packet: packet.clone().into(),
                 release_packet_id_if_send_error: None,
             });
-            resent = resent.saturating_add(1);
+            resent.push(packet.packet_id());
             true // Keep in store
         });
+        // A dropped packet no longer awaits an acknowledgement
+        for packet_id in dropped {
+            self.pid_puback.remove(&packet_id);
+            self.pid_pubrec.remove(&packet_id);
+            self.pid_pubcomp.remove(&packet_id);
+        }
         // The retransmitted exchanges are exactly the ones in flight on this new connection
         // (a PUBLISH queued while connecting is part of the store and was counted when queued):
         // count them against the peer's Receive Maximum; their acknowledgements decrement it.
         if self.publish_send_max.is_some() {
-            self.publish_send_count = resent;
+            self.publish_send_counted.clear();
+            self.publish_send_counted.extend(resent);
+            self.publish_send_count = self.publish_send_counted.len().min(u16::MAX as usize) as u16;
         }
 
         events
@@ -1852,7 +1864,11 @@ where
                     }
                     return events;
                 }
-                self.publish_send_count += 1;
+                if let Some(packet_id) = packet_id_opt {
+                    if self.publish_send_counted.insert(packet_id) {
+                        self.publish_send_count += 1;
+                    }
+                }
             }
         }
 
@@ -2454,6 +2470,15 @@ where
                     duration_ms: ms,
                 });
             }
+        }
+    }
+
+    /// An outbound QoS>0 exchange completed: it no longer counts against the peer's Receive
+    /// Maximum - provided it was counted on this connection (an exchange continued from an
+    /// earlier connection by a PUBREL of the application never was)
+    fn uncount_publish_send(&mut self, packet_id: PacketIdType) {
+        if self.publish_send_counted.remove(&packet_id) && self.publish_send_count > 0 {
+            self.publish_send_count -= 1;
         }
     }
 
@@ -3229,9 +3254,7 @@ where
                         self.pid_man.release_id(packet_id);
                         events.push(GenericEvent::NotifyPacketIdReleased(packet_id));
                     }
-                    if self.publish_send_max.is_some() {
-                        self.publish_send_count -= 1;
-                    }
+                    self.uncount_publish_send(packet_id);
                     events.extend(self.refresh_pingreq_recv());
                     events.push(GenericEvent::NotifyPacketReceived(packet.into()));
                 } else {
@@ -3309,9 +3332,7 @@ where
                             self.pid_man.release_id(packet_id);
                             events.push(GenericEvent::NotifyPacketIdReleased(packet_id));
                         }
-                        if self.publish_send_max.is_some() {
-                            self.publish_send_count -= 1;
-                        }
+                        self.uncount_publish_send(packet_id);
                     }
                     events.extend(self.refresh_pingreq_recv());
                     events.push(GenericEvent::NotifyPacketReceived(packet.into()));
@@ -3439,9 +3460,7 @@ where
                         self.pid_man.release_id(packet_id);
                         events.push(GenericEvent::NotifyPacketIdReleased(packet_id));
                     }
-                    if self.publish_send_max.is_some() {
-                        self.publish_send_count -= 1;
-                    }
+                    self.uncount_publish_send(packet_id);
                     events.extend(self.refresh_pingreq_recv());
                     events.push(GenericEvent::NotifyPacketReceived(packet.into()));
                 } else {
